@@ -40,28 +40,6 @@ func H_C01_snapshot() {
 	vxrt.Assert(vxrt.Eq(dumpDir(dir), before), "C01:replay-dir-unchanged")
 }
 
-// jsonTemplate builds a small JSON document with symbolic leaves:
-// 0: {"k":"<s>"}   1: ["<s>",<digit>]   2: {"b":<digit>,"a":"<s>"}
-func jsonTemplate(label string, n int) string {
-	s := vxrt.Text(label, vxrt.Len(label+"-len", 0, n))
-	// string content: printable ASCII without quote and backslash
-	for i := 0; i < len(s); i++ {
-		vxrt.Assume(vxrt.And(vxrt.And(s[i] >= 0x20, s[i] < 0x7f), vxrt.And(s[i] != '"', s[i] != '\\')))
-	}
-	switch vxrt.Choice(label+"-shape", 3) {
-	case 0:
-		return `{"k":"` + s + `"}`
-	case 1:
-		d := vxrt.Text(label+"-digit", 1)
-		vxrt.Assume(vxrt.And(d[0] >= '0', d[0] <= '9'))
-		return `["` + s + `",` + d + `]`
-	default:
-		d := vxrt.Text(label+"-digit", 1)
-		vxrt.Assume(vxrt.And(d[0] >= '0', d[0] <= '9'))
-		return `{"b":` + d + `,"a":"` + s + `"}`
-	}
-}
-
 // H_C01_json: record one MatchJSON document, then replay it.
 func H_C01_json() {
 	vxrt.CI(false)
@@ -255,4 +233,47 @@ func H_C01_struct() {
 	}
 	got, _, err := getPrevSnapshot("[TestZ - 1]", dir+"/f.snap")
 	vxrt.Assert(err == nil && got == "z", "C01:bystander-entry-intact")
+}
+
+// H_C01_twofiles: one test records into two snapshot files (two Configs) with the three
+// keyed entry points, interleaved; the second and third execution replay every call.
+func H_C01_twofiles() {
+	vxrt.CI(false)
+	vxrt.YAMLAssume(true)
+	dir := vxrt.Dir()
+	cf := WithConfig(Dir(dir), Filename("f"))
+	cg := WithConfig(Dir(dir), Filename("g"))
+	calls := vxrt.Len("calls", 2, vxrt.Param("calls", 4))
+	which := make([]int, calls)
+	api := make([]int, calls)
+	for k := 0; k < calls; k++ {
+		which[k] = vxrt.Choice("file", 2)
+		api[k] = vxrt.Choice("api", 3)
+	}
+	for round := 0; round < 3; round++ {
+		t := newT("TestT")
+		stamp := vxrt.FSStamp()
+		for k := 0; k < calls; k++ {
+			c := cf
+			if which[k] == 1 {
+				c = cg
+			}
+			val := `"v` + itoa(k) + `"`
+			switch api[k] {
+			case 0:
+				c.MatchSnapshot(t, val)
+			case 1:
+				c.MatchJSON(t, val)
+			default:
+				c.MatchYAML(t, val)
+			}
+		}
+		t.end()
+		if round == 0 {
+			vxrt.Assert(len(t.errors) == 0 && len(t.logs) == calls, "C01:record")
+		} else {
+			vxrt.Assert(len(t.errors) == 0 && len(t.logs) == 0, "C01:replay-no-error")
+			vxrt.Assert(vxrt.FSStamp() == stamp, "C01:replay-no-write")
+		}
+	}
 }
